@@ -76,3 +76,10 @@ Proof. exact C14_ops. Qed.
 Check C14_mixed_calls : forall c r L opsI opsL vI outsI vL outsL, no_resize opsI -> no_resize opsL -> feeds opsI = feeds opsL -> pris_free init_parser (feeds opsL) -> run_ops (vt_new c r None) opsI = Ok (vI, outsI) -> run_ops (vt_new c r L) opsL = Ok (vL, outsL) -> active (vterm vL) = Primary -> concat (map o_drained outsL) ++ lines (buf (vterm vL)) = lines (buf (vterm vI)).
 Print Assumptions C14_mixed_calls.
 
+From Avt Require Import Proofs.C04Wrap Proofs.C07Wrap.
+(** known finding KF-C14-1 (second statement audit): the collected texts can differ by trailing empty lines across limits -
+    which is why C14_collector* state equality modulo `strip_empty_tail`; a reachable witness *)
+Theorem C14_known_finding_witness : let calls := [CFeedStr [97]; CFeedStr [13; 10]; CFeedStr [13; 10]]%N in let one := [CFeedStr [97; 13; 10; 13; 10]]%N in collector_session (vt_new 2 1 (Some 0%N)) calls = Ok ([[]; [[97]]; [[]]]%N, []) /\ collector_session (vt_new 2 1 None) calls = Ok ([[]; []; []], [[97]]%N) /\ collected (vt_new 2 1 (Some 0%N)) calls = Ok [[97]; []]%N /\ collected (vt_new 2 1 None) calls = Ok [[97]]%N /\ collected (vt_new 2 1 (Some 0%N)) one = Ok [[97]; []]%N /\ collected (vt_new 2 1 None) one = Ok [[97]]%N /\ (match run_session (vt_new 2 1 (Some 0%N)) [[97]; [13; 10]; [13; 10]]%N, run_session (vt_new 2 1 None) [[97]; [13; 10]; [13; 10]]%N with | Ok (v0, outs0), Ok (vI, outsI) => collector_total outs0 (lines (buf (vterm v0))) = [[97]; []]%N /\ collector_total outsI (lines (buf (vterm vI))) = [[97]]%N | _, _ => False end).
+Proof. exact C14_collector_trailing_empty_witness. Qed.
+Check C14_known_finding_witness : let calls := [CFeedStr [97]; CFeedStr [13; 10]; CFeedStr [13; 10]]%N in let one := [CFeedStr [97; 13; 10; 13; 10]]%N in collector_session (vt_new 2 1 (Some 0%N)) calls = Ok ([[]; [[97]]; [[]]]%N, []) /\ collector_session (vt_new 2 1 None) calls = Ok ([[]; []; []], [[97]]%N) /\ collected (vt_new 2 1 (Some 0%N)) calls = Ok [[97]; []]%N /\ collected (vt_new 2 1 None) calls = Ok [[97]]%N /\ collected (vt_new 2 1 (Some 0%N)) one = Ok [[97]; []]%N /\ collected (vt_new 2 1 None) one = Ok [[97]]%N /\ (match run_session (vt_new 2 1 (Some 0%N)) [[97]; [13; 10]; [13; 10]]%N, run_session (vt_new 2 1 None) [[97]; [13; 10]; [13; 10]]%N with | Ok (v0, outs0), Ok (vI, outsI) => collector_total outs0 (lines (buf (vterm v0))) = [[97]; []]%N /\ collector_total outsI (lines (buf (vterm vI))) = [[97]]%N | _, _ => False end).
+Print Assumptions C14_known_finding_witness.
